@@ -9,6 +9,7 @@ import (
 	"testing"
 
 	"github.com/tokenized/pkg/bitcoin"
+	"github.com/tokenized/pkg/wire"
 	"github.com/tokenized/spynode/internal/verifkit"
 )
 
@@ -293,5 +294,174 @@ func TestVerif_C10(t *testing.T) {
 		if rep.WantSample() {
 			rep.Sample(map[string]interface{}{"scenario": desc, "mutations": muts, "operations": ops})
 		}
+	}
+}
+
+// ---- C10, second clause, over hostile message sequences ---------------------------------------------------
+//
+// The DS scenarios have a well-behaved peer.  Here the C02 alphabet (header lists of every shape,
+// requested and unrequested blocks, processor steps; start block found, or never found so that
+// headers are stored directly) is replayed with one storage operation failing: the in-memory chain
+// must pass the structural probe after every later step.
+
+func c02RunFault(w *c02World, startHash bitcoin.Hash32, seq []int, failAt int) (*dsSim, *verifkit.Store, error) {
+	store := verifkit.NewStore(false)
+	e, err := newDD(ddOpt{startHash: startHash, store: store})
+	if err != nil {
+		return nil, nil, err
+	}
+	store.StartLog()
+	if failAt >= 0 {
+		store.FailAt(failAt)
+	}
+	peer := newSimPeer(w.tree, w.named["A4"])
+	s := newDSSim(e, peer, rand.New(rand.NewSource(1)), simPolicy{})
+	s.probeIf = func() bool { return failAt >= 0 && store.FaultFired() }
+	for _, i := range seq {
+		op := w.ops[i]
+		if op.Kind == "step" {
+			s.guard("block processor step", func() { s.e.step() })
+			s.afterStep("step")
+		} else {
+			m := op.msg()
+			s.guard("handleMessage("+op.Kind+" "+op.Names+")", func() { s.e.node.handleMessage(s.e.ctx, m) })
+			s.afterStep(op.Kind + " " + op.Names)
+		}
+		s.e.drain()
+		s.e.procErr = nil
+		structural := false
+		for _, f := range s.finds {
+			if f.prop == "C02" {
+				structural = true
+			}
+		}
+		if structural {
+			break
+		}
+	}
+	return s, store, nil
+}
+
+func TestVerif_C10Hostile(t *testing.T) {
+	rep := verifkit.NewReport("C10")
+	defer rep.Write()
+	w := c02Build()
+	// a second alphabet: header lists of a 1005-block chain (the 1000-header file rolls over while
+	// headers are stored directly), delivered more than once as a peer answering two polls does
+	wl := &c02World{tree: verifkit.NewTree(), named: map[string]*verifkit.Block{}}
+	{
+		chain := wl.tree.ExtendN(wl.tree.Genesis, 1005).Chain()
+		wl.named["A4"] = chain[1005]
+		list := func(name string, from, to int) c02Op {
+			bs := chain[from : to+1]
+			return c02Op{Kind: "headers", Names: name, msg: func() wire.Message { return headersMsg(bs...) }}
+		}
+		wl.ops = []c02Op{list("1..1005", 1, 1005), list("1..1005", 1, 1005), list("990..1005", 990, 1005), list("998..1001", 998, 1001),
+			list("999..1005", 999, 1005), list("1000..1005", 1000, 1005), list("1..999", 1, 999), {Kind: "step"}}
+	}
+	n := verifkit.N(3000, 300000)
+	for ci := 0; ci < n; ci++ {
+		if !verifkit.Mine(ci) {
+			continue
+		}
+		ci := ci
+		verifkit.RunCase(rep, ci, func() {
+			r := verifkit.Rand("C10/hostile", ci)
+			if ci%25 == 7 {
+				// roll-over family
+				var start bitcoin.Hash32
+				r.Read(start[:])
+				seq := []int{0}
+				for i := 0; i < 2+r.Intn(4); i++ {
+					seq = append(seq, r.Intn(len(wl.ops)))
+				}
+				_, store0, err := c02RunFault(wl, start, seq, -1)
+				if err != nil {
+					rep.Inconc(ci, err.Error())
+					return
+				}
+				// fail one of the writes (there are few), or any operation
+				var writes []int
+				for j, op := range store0.Log() {
+					if op.Kind == verifkit.OpWrite {
+						writes = append(writes, j)
+					}
+				}
+				j := r.Intn(store0.Ops())
+				if len(writes) > 0 && r.Intn(4) > 0 {
+					j = writes[r.Intn(len(writes))]
+				}
+				s, store, err := c02RunFault(wl, start, seq, j)
+				if err != nil || !store.FaultFired() {
+					rep.Case("rollover/fault-not-reached", false)
+					return
+				}
+				rep.Event("hostile_rollover_faults_injected", 1)
+				for _, f := range s.finds {
+					if f.prop == "C02" && !strings.HasPrefix(f.sig, "C02/callback-") {
+						rep.Finding(ci, "C10/fault-hostile/rollover/memory-chain-inconsistent", fmt.Sprintf("storage operation %d failed once while 1005 headers were stored directly and delivered again; afterwards: %s | sequence: %s", j, f.detail, c02SeqString(wl, seq)), map[string]interface{}{"sequence": c02SeqString(wl, seq), "failed_operation": j})
+						break
+					}
+				}
+				rep.Case(fmt.Sprintf("rollover/%d/%d", len(seq), j%7), true)
+				return
+			}
+			var start bitcoin.Hash32
+			startName := []string{"A1", "A3", "B3", "never"}[r.Intn(4)]
+			if startName == "never" {
+				r.Read(start[:]) // no block has this hash: every header is stored directly
+			} else {
+				start = w.named[startName].Hash
+			}
+			seq := make([]int, 12+r.Intn(20))
+			for i := range seq {
+				seq[i] = r.Intn(len(w.ops))
+			}
+			ref, store0, err := c02RunFault(w, start, seq, -1)
+			if err != nil {
+				rep.Inconc(ci, err.Error())
+				return
+			}
+			_ = ref
+			ops := store0.Ops()
+			if ops == 0 {
+				rep.Case("no-storage-operation", false)
+				return
+			}
+			j := r.Intn(ops)
+			s, store, err := c02RunFault(w, start, seq, j)
+			if err != nil {
+				rep.Case("fault-at-load", false)
+				return
+			}
+			rep.Event("hostile_faults_injected", 1)
+			if !store.FaultFired() {
+				rep.Event("hostile_faults_not_reached", 1)
+				return
+			}
+			failed := "?"
+			for _, op := range store.Log() {
+				if op.Err == verifkit.ErrInjected.Error() {
+					failed = fmt.Sprintf("%s %s", op.Kind, op.Key)
+				}
+			}
+			kind := failed
+			for k := 0; k < len(kind); k++ {
+				if kind[k] >= '0' && kind[k] <= '9' {
+					kind = kind[:k]
+					break
+				}
+			}
+			for _, f := range s.finds {
+				if f.prop == "C02" && !strings.HasPrefix(f.sig, "C02/callback-") {
+					rep.Finding(ci, "C10/fault-hostile/"+kind+"/memory-chain-inconsistent", fmt.Sprintf("storage operation %d (%s) failed once during a hostile message sequence (start block %s); afterwards: %s | sequence: %s", j, failed, startName, f.detail, c02SeqString(w, seq)), map[string]interface{}{"start": startName, "sequence": c02SeqString(w, seq), "failed_operation": failed})
+					break
+				}
+			}
+			rep.Case(fmt.Sprintf("%s/%s/%d", startName, kind, len(seq)/8), true)
+			if rep.WantSample() {
+				rep.Sample(map[string]interface{}{"engine": "DD hostile sequence + one storage fault", "start": startName, "failed_operation": failed, "sequence": c02SeqString(w, seq)})
+			}
+		})
 	}
 }
